@@ -66,6 +66,7 @@ type apMint struct {
 	wire      []byte
 	direct    *messages.APReq // used when the request cannot be marshalled
 	tktCName  types.PrincipalName
+	pacName   string // EffectiveName inside the PAC the ticket carries ("" without PAC)
 	tktCRealm string
 	end       time.Time
 	conc      map[string]interface{}
@@ -182,6 +183,9 @@ func mintAPReq(w *ktWorld, c map[string]string, s c01Settings, r *rand.Rand, ori
 	if ts.start.IsZero() {
 		m.conc["start"] = 0
 	}
+	if c["pac"] != "none" && pacFor != nil {
+		m.pacName = samplePacName()
+	}
 	var b []byte
 	if c["trailer"] == "clearCopy" {
 		b, err = marshalAPReqWithTrailer(ap, etp)
@@ -206,6 +210,8 @@ type presentation struct {
 	Panic             string `json:"panic"`
 	Err               string `json:"err"`
 	NameIsTickets     bool   `json:"nameIsTickets"`
+	CNameIsTickets    bool   `json:"cnameIsTickets"`
+	UserNameSrc       string `json:"userNameSrc"` // "ticket": the ticket's cname; "pac": the EffectiveName of the PAC in the ticket; "other"; "" without identity
 	RealmIsTickets    bool   `json:"realmIsTickets"`
 	UntilIsTicketsEnd bool   `json:"untilIsTicketsEnd"`
 }
@@ -236,7 +242,9 @@ func (m *apMint) present(st *service.Settings, origin time.Time) (presentation, 
 		p.Ok = false
 	}
 	if p.Ok && creds != nil {
-		p.NameIsTickets = creds.UserName() == m.tktCName.PrincipalNameString() && creds.CName().Equal(m.tktCName)
+		p.CNameIsTickets = creds.CName().Equal(m.tktCName)
+		p.UserNameSrc = m.nameSrc(creds.UserName())
+		p.NameIsTickets = p.CNameIsTickets && p.UserNameSrc == "ticket"
 		p.RealmIsTickets = creds.Domain() == m.tktCRealm && creds.Realm() == m.tktCRealm
 		p.UntilIsTicketsEnd = creds.ValidUntil().Equal(m.end)
 	}
@@ -349,4 +357,23 @@ func cmdC01(args []string) error {
 		return firstErr
 	}
 	return nil
+}
+
+var pacNameOnce sync.Once
+var pacNameVal string
+
+func samplePacName() string {
+	pacNameOnce.Do(func() { pacNameVal = newPacFactory().effectiveName() })
+	return pacNameVal
+}
+
+// nameSrc says where a reported user name comes from
+func (m *apMint) nameSrc(user string) string {
+	switch user {
+	case m.tktCName.PrincipalNameString():
+		return "ticket"
+	case m.pacName:
+		return "pac"
+	}
+	return "other"
 }
